@@ -31,9 +31,12 @@ class History:
         self.cfg = S.default_config(
             kind=kind, served=served,
             serializer=rng.choice(['default', 'default', 'msgpack']),
-            async_handlers=True, namespaces_opt=served,
+            async_handlers=True, namespaces_opt=served + ['/rej'],
+            always_connect=rng.random() < 0.5,
             coroutines=rng.random() < 0.7)
         self.r = S.Runner(self.cfg)
+        self.rej = {}
+        self._register_rej()
         self.conn = {}          # (T, ns) -> sid
         self.out = {}           # sid -> {id: token}
         self.used = {}          # sid -> set of ids already acknowledged
@@ -44,6 +47,84 @@ class History:
         self.ops = []
         self.failed = False
         self.id0_acked = set()  # sids that were sent an ACK with id 0
+        self.raising = set()    # tokens whose callback raises
+
+    def _register_rej(self):
+        """Namespace /rej: its connect handler emits to the new client with
+        a callback and then accepts or refuses the connection."""
+        import socketio
+        sio, rej, events = self.r.sio, self.rej, self.r.events
+
+        def cb(*args):
+            events.append(('callback', rej['tok'], list(args)))
+
+        def decide(sid):
+            rej['sid'] = sid
+            if rej['beh'] == 'false':
+                return False
+            if rej['beh'] == 'refuse':
+                raise socketio.exceptions.ConnectionRefusedError('no')
+        if self.kind == 'async':
+            async def connect(sid, environ, auth=None):
+                await sio.emit('tok%d' % rej['tok'], {'t': rej['tok']},
+                               to=sid, namespace='/rej', callback=cb)
+                return decide(sid)
+        else:
+            def connect(sid, environ, auth=None):
+                sio.emit('tok%d' % rej['tok'], {'t': rej['tok']}, to=sid,
+                         namespace='/rej', callback=cb)
+                return decide(sid)
+        sio.on('connect', connect, namespace='/rej')
+
+    def do_refused_with_callback(self):
+        """A callback registered for a client whose connection is then
+        refused belongs to a client that has disconnected: an ACK with its
+        id, sent all the same, invokes nothing."""
+        rng, ctx = self.rng, self.ctx
+        cand = [T for T in self.open_T if (T, '/rej') not in self.conn]
+        if not cand:
+            return
+        T = rng.choice(cand)
+        self.tok += 1
+        tok = self.tok
+        beh = rng.choice(['false', 'refuse', 'refuse', 'accept'])
+        self.rej.update(tok=tok, beh=beh, sid=None)
+        op = ['connect', T, '/rej', None]
+        self.ops.append(op + [beh])
+        res = self.r.step(op)
+        if res.get('exc') or res.get('errors'):
+            return self.fail('CONNECT raised', res)
+        pk = [p for p in res['sent'].get(T, [])
+              if p['type'] in (R.EVENT, R.BINARY_EVENT)]
+        if len(pk) != 1 or pk[0]['id'] is None:
+            return self.fail('the emit with callback of the connect handler '
+                             'sent %r' % res['sent'], res)
+        aid = pk[0]['id']
+        sid = self.rej['sid']
+        args = ['thanks', tok]
+        op = ['ack', T, '/rej', aid, args]
+        self.ops.append(op)
+        res = self.r.step(op)
+        cbs = [e for e in res['events'] if e[0] == 'callback']
+        if res.get('exc') or res.get('errors') or res['sent']:
+            return self.fail('ACK from a client whose connection was %s was '
+                             'not handled silently' % (
+                                 'accepted' if beh == 'accept' else
+                                 'refused'), res)
+        if beh == 'accept':
+            if len(cbs) != 1 or cbs[0][1] != tok or cbs[0][2] != args:
+                return self.fail('callback registered inside the connect '
+                                 'handler: invocations %r' % cbs, res)
+            self.r.step(['cdisc', T, '/rej'])
+        elif cbs:
+            return self.fail('callback of a client whose connection was '
+                             'refused (it is disconnected) was invoked by a '
+                             'later ACK: %r' % cbs, res,
+                             {'always_connect': self.cfg['always_connect']})
+        ctx.count('refused_with_callback_outstanding'
+                  if beh != 'accept' else 'accepted_with_callback')
+        ctx.case((self.kind, 'connect_handler_callback', beh,
+                  self.cfg['always_connect'], self.cfg['serializer']), None)
 
     def witness(self, res, extra=None):
         w = {'case_index': self.index, 'kind': self.kind,
@@ -99,6 +180,11 @@ class History:
         tok = self.tok
         data = gen.gen_payload_arg(rng, True)
         cb = 'co' if (self.kind == 'async' and rng.random() < 0.5) else 'fn'
+        if rng.random() < 0.12:
+            # an application callback that fails: the other outstanding
+            # acknowledgements of the client are not affected by it
+            cb = 'raise_co' if cb == 'co' else 'raise'
+            self.raising.add(tok)
         op = ['emit', tok, sid, None, ns if rng.random() < 0.8 or ns != '/'
               else None, cb, data]
         self.ops.append(op)
@@ -149,6 +235,11 @@ class History:
                  'after_id0_ack': self.after_id0(sid)}
         if aid == 0 and sid:
             self.id0_acked.add(sid)
+        if tok in self.raising and res.get('errors'):
+            # the callback's own exception reaches the log, nothing else
+            res['errors'] = [e for e in res['errors']
+                             if e['exc'] != 'Injected']
+            ctx.count('acks_with_raising_callback')
         if res.get('exc') or res.get('errors'):
             extra['id0_symptom'] = True
             return self.fail('an ACK (%s id) was not handled without error: '
@@ -203,6 +294,7 @@ class History:
         self.tok += 1
         tok = self.tok
         calls = []
+        started = threading.Event()
         if d.is_async:
             async def slow(*args):
                 calls.append(list(args))
@@ -210,6 +302,7 @@ class History:
         else:
             def slow(*args):
                 calls.append(list(args))
+                started.set()
                 time.sleep(0.03)
         op = ['dup_ack_race', tok, sid, ns]
         self.ops.append(op)
@@ -231,29 +324,39 @@ class History:
         if aid in self.out.get(sid, {}):
             return self.fail('ack id %r reused while still outstanding for '
                              'the same client' % aid, res)
+        # (half of the time an acknowledgement with attachments: several
+        # frames, the callback starts when the last one has arrived)
+        ackargs = ['a', tok] + ([b'\x00\x01', {'k': b'z'}]
+                                if rng.random() < 0.5 else [])
         if d.serializer == 'msgpack':
-            fr = [R.msgpack_encode(R.ACK, ns, aid, ['a', tok])]
+            fr = [R.msgpack_encode(R.ACK, ns, aid, ackargs)]
         else:
-            text, atts = R.encode(R.ACK, ns, aid, ['a', tok])
-            fr = [text]
+            text, atts = R.encode(R.ACK, ns, aid, ackargs)
+            fr = [text] + atts
+        op.append(len(fr))
         res = {'op': op, '_ev0': len(r.events)}
         if d.is_async:
+            async def one():
+                for f in fr:
+                    await t.socket.receive(eio_packet.Packet(
+                        eio_packet.MESSAGE, f))
+
             async def go():
-                await asyncio.gather(*[
-                    t.socket.receive(eio_packet.Packet(eio_packet.MESSAGE,
-                                                       fr[0]))
-                    for _ in range(2)])
+                await asyncio.gather(one(), one())
             d.run(go())
         else:
             old = d.autojoin
             d.autojoin = False
 
-            def feed(delay):
-                time.sleep(delay)
-                t.socket.receive(eio_packet.Packet(eio_packet.MESSAGE,
-                                                   fr[0]))
+            def feed(second):
+                if second:
+                    # while the callback started by the first is running
+                    started.wait(5)
+                for f in fr:
+                    t.socket.receive(eio_packet.Packet(eio_packet.MESSAGE,
+                                                       f))
             ths = [threading.Thread(target=feed, args=(dl,), daemon=True)
-                   for dl in (0, 0.008)]
+                   for dl in (False, True)]
             for th in ths:
                 th.start()
             for th in ths:
@@ -265,13 +368,15 @@ class History:
         if res.get('errors'):
             return self.fail('duplicate ACK racing with its running callback '
                              'was not handled without error', res)
-        if len(calls) != 1 or not R.deep_eq(calls[0], ['a', tok]):
+        if len(calls) != 1 or not R.deep_eq(calls[0], ackargs):
             return self.fail('callback invoked %d times when its ACK arrived '
                              'twice, the second time while the callback was '
                              'still running' % len(calls), res,
                              {'invocations': calls})
         self.used.setdefault(sid, set()).add(aid)
-        ctx.case((self.kind, 'dup_ack_race', self.cfg['serializer']),
+        ctx.count('duplicate_ack_races_%d_frames' % min(len(fr), 2))
+        ctx.case((self.kind, 'dup_ack_race', self.cfg['serializer'],
+                  len(fr)),
                  {'op': op, 'invocations': calls})
 
     def do_disconnect(self):
@@ -528,6 +633,8 @@ class History:
             return
         if r < 0.20:
             return self.do_disconnect()
+        if r > 0.97:
+            return self.do_refused_with_callback()
         if r < (0.215 if self.kind == 'async' else 0.204):
             # (real sleeps on the threaded server: kept rare)
             return self.do_dup_ack_race()
@@ -571,6 +678,9 @@ def run(ctx):
     ctx.require('calls_judged', 20)
     ctx.require('call_timeouts_observed', 5)
     ctx.require('duplicate_ack_races', 5)
+    ctx.require('refused_with_callback_outstanding', 5)
+    ctx.require('duplicate_ack_races_2_frames', 2)
+    ctx.require('acks_with_raising_callback', 5)
     for cls in ('correct', 'duplicate', 'zero', 'foreign', 'never_issued'):
         ctx.require('acks_' + cls, 3)
     k = 0
